@@ -128,5 +128,14 @@ CHECKS["C05"] = {
     "quick": {"checks": 40, "timeout": 1500},
     "thorough": {"checks": 600, "timeout": 3400, "shards": 8},
 }
+CHECKS["C09"] = {
+    "pkg": "./props/c09",
+    "level": "exploration",
+    "technique": "property-based testing (rapid) with harness-owned read schedules and scripted front servers; differential on the embedded content digest",
+    "level_text": "(a) Every transform kind is read 2-4 times (optionally after a partially read, abandoned attempt, and in a repetition test with an attempt that is never read) and all complete reads must be byte-identical. (b) Signers are fed their upload stream under drawn read-size schedules (1 byte, primes, straddling 4 KiB / 64 KiB / 1 MiB, short reads, data returned with EOF): signing must succeed like a whole read, the patched file must verify and the embedded content digest, extracted without relic (PE, MSI, PowerShell, JAR per-file digests, APK v2), must be identical. (c) The same input is signed standalone and through the real daemon behind 1-3 scripted front servers (503 before/after reading k bytes, connection reset, 406, pass) listed by a scripted directory that advertises identity / gzip / snappy / unknown encodings, with a drawn retry budget: any produced signature must verify and embed the standalone digest; scripts with only transient HTTP failures, a passing server and enough retries must succeed; a failure must leave the input untouched.",
+    "level_note": "The Go scheduler is not owned by the harness: the abandoned-attempt race is attacked by repetition (60 per transform, thorough 2000). Connection resets may or may not be failed over (unspecified), only the result's integrity is judged there.",
+    "quick": {"checks": 150, "timeout": 1500, "env": {"VERIF_C09_ABANDON_REPS": 60}},
+    "thorough": {"checks": 4000, "timeout": 3400, "shards": 8, "env": {"VERIF_C09_ABANDON_REPS": 2000}},
+}
 for _pid in CHECKS:
     NOT_APPLICABLE.pop(_pid, None)
